@@ -48,3 +48,26 @@ Definition check_scase (c : scase) : list N :=
 
 Definition smismatches (cs : list scase) : list (nat * N) :=
   flat_map (fun ic => map (fun e => (fst ic, e)) (check_scase (snd ic))) (number 0 cs).
+
+(* a local transaction of several statements: the register text is the ';'-join of the statements' texts in
+   unspecified order (Go map), duplicates merged *)
+Record tcase := {
+  t_table : bytes;
+  t_pk : list nat;
+  t_images : list (list irow);   (* per recorded statement: the image its key was built from *)
+  t_changed : list key;          (* row diff of the dumps across the local transaction *)
+  t_obs : bytes
+}.
+
+Definition is_nilb (b : bytes) : bool := match b with [] => true | _ => false end.
+
+Definition check_tcase (c : tcase) : list N :=
+  let models := map (lock_key_text (t_table c) (t_pk c)) (t_images c) in
+  let pieces := filter (fun p => negb (is_nilb p)) (split_on c_semi (t_obs c)) in
+  (if forallb (fun m => existsb (bytes_eqb m) pieces) models && forallb (fun p => existsb (bytes_eqb p) models) pieces
+   then [] else [35%N])
+  ++ (let parsed := flat_map snd (parse_lock_keys (t_obs c)) in
+      if forallb (fun k => existsb (texts_eqb (key_texts k)) parsed) (t_changed c) then [] else [32%N]).
+
+Definition tmismatches (cs : list tcase) : list (nat * N) :=
+  flat_map (fun ic => map (fun e => (fst ic, e)) (check_tcase (snd ic))) (number 0 cs).
